@@ -643,3 +643,19 @@ package index
 //@ func (iter *Iterator) Progress() (p float64)
 //@   trusted floating-point progress percentage (logging only)
 //@   pure
+
+// chunkOldIndex (C10, C07): the legacy index is split so that every record of a chunk starts
+// below the file-size limit - the same rule the writer (flushBucket) and the position decoding
+// use - and every output file starts empty (created truncated), so that a conversion that was
+// interrupted can simply be run again.
+//@ func chunkOldIndex(ctx context.Context, file *os.File, name string, fileSizeLimit int64) (lastFileNum uint32, err error)  property C10 C07
+//@   requires fileSizeLimit > 0 && fileSizeLimit <= (1 << 40) && file != nil
+//@   unreachable return#4: io.CopyN returns a non-nil error whenever it copied fewer than n bytes (its contract), so the short-copy check after a nil error cannot fire
+//@   modifies ctx.$done, heap("bufio.")
+//@   ghost var gout *os.File = ptr(os.File, 0)
+//@   ghost at after call index.createFileAppend#0: gout = $r0
+//@   ghost at after call index.createFileAppend#1: gout = $r0
+//@   assert at after call index.createFileAppend#0: @output-starts-empty $r1 == nil ==> $r0.$size == 0 && $r0.$name == fname(name, fileNum)
+//@   assert at after call index.createFileAppend#1: @output-starts-empty $r1 == nil ==> $r0.$size == 0 && $r0.$name == fname(name, fileNum)
+//@   assert at before call (*bufio.Writer).Write#0: @record-starts-below-limit 0 <= written && written < fileSizeLimit
+//@   loop 0 invariant 0 <= written && written < fileSizeLimit && outFile != nil && fresh(outFile) && writer != nil && reader != nil && len(sizeBuffer) == 4 && fresh(sizeBuffer)
